@@ -218,6 +218,8 @@ def suite_pairs(ctx, res, n, n_tiny=0):
             c["codepoints"] = [[0xE000]]
             c["id"] += ":one-doc"
         cases.append(c)
+    # a glyph borrowing from two otherwise unrelated glyphs: all three must end up in one OT-SVG document (and the build must succeed)
+    cases += [fontgen.make_two_donor_case(8 * ctx.rng.getrandbits(16) + i, fmt="picosvg" if i < 8 else "glyf_colr_1") for i in range(8 + max(0, n_tiny // 8))]
     from nanoemoji import paint as npaint
 
     orig_apply = npaint.PaintRadialGradient.apply_transform
